@@ -175,3 +175,58 @@ pub fn specs() -> Vec<SynthSpec> {
     v.push(SynthSpec { contaminate: 31, big: false, cvt_len: 4, salt: 5, bad_prep: true });
     v
 }
+
+/// A font whose glyph 1 (a four-point square-ish contour) carries `glyph_prog`, with the given font and
+/// control-value programs and control values; limits generous enough for generated programs.
+pub fn build_custom(glyph_prog: &[u8], fpgm: &[u8], prep: &[u8], cvt: &[i16]) -> Vec<u8> {
+    let mut gb = GlyfLocaBuilder::new();
+    gb.add_glyph(&SimpleGlyph::default()).expect("glyph");
+    let pts = vec![
+        write_fonts::read::tables::glyf::CurvePoint::new(100, 0, true),
+        write_fonts::read::tables::glyf::CurvePoint::new(600, 0, true),
+        write_fonts::read::tables::glyf::CurvePoint::new(610, 700, true),
+        write_fonts::read::tables::glyf::CurvePoint::new(100, 700, false),
+        write_fonts::read::tables::glyf::CurvePoint::new(50, 350, true),
+    ];
+    let contour: Contour = pts.into();
+    let mut sg = SimpleGlyph { bbox: Bbox { x_min: 50, y_min: 0, x_max: 610, y_max: 700 }, contours: vec![contour], instructions: glyph_prog.to_vec() };
+    sg.recompute_bounding_box();
+    gb.add_glyph(&sg).expect("glyph");
+    let (glyf, loca, fmt) = gb.build();
+    let mut b = FontBuilder::new();
+    let head = Head { units_per_em: 1024, index_to_loc_format: fmt as i16, ..Default::default() };
+    b.add_table(&head).expect("head");
+    let maxp = Maxp {
+        num_glyphs: 2,
+        max_points: Some(8),
+        max_contours: Some(2),
+        max_composite_points: Some(0),
+        max_composite_contours: Some(0),
+        max_zones: Some(2),
+        max_twilight_points: Some(6),
+        max_storage: Some(8),
+        max_function_defs: Some(4),
+        max_instruction_defs: Some(2),
+        max_stack_elements: Some(96),
+        max_size_of_instructions: Some(1024),
+        max_component_elements: Some(0),
+        max_component_depth: Some(0),
+    };
+    b.add_table(&maxp).expect("maxp");
+    let hhea = Hhea { number_of_h_metrics: 2, ascender: 800.into(), descender: (-200).into(), ..Default::default() };
+    b.add_table(&hhea).expect("hhea");
+    let hmtx = Hmtx { h_metrics: vec![write_fonts::tables::hmtx::LongMetric { advance: 500, side_bearing: 0 }, write_fonts::tables::hmtx::LongMetric { advance: 700, side_bearing: 50 }], left_side_bearings: vec![] };
+    b.add_table(&hmtx).expect("hmtx");
+    b.add_table(&glyf).expect("glyf");
+    b.add_table(&loca).expect("loca");
+    if !fpgm.is_empty() {
+        b.add_raw(Tag::new(b"fpgm"), fpgm.to_vec());
+    }
+    if !prep.is_empty() {
+        b.add_raw(Tag::new(b"prep"), prep.to_vec());
+    }
+    if !cvt.is_empty() {
+        b.add_raw(Tag::new(b"cvt "), cvt.iter().flat_map(|v| v.to_be_bytes()).collect::<Vec<u8>>());
+    }
+    b.build()
+}
